@@ -230,7 +230,7 @@ func init() {
 	core.Register(&core.Prop{
 		ID:    "C16",
 		Level: "model_checking",
-		Rule: "full product: slice size {4,8,12,16 (quick), +20,32,48 (thorough)} x file length {3s,3s+1,4s-1,5s+s/2} x {insert,delete} x every position 0..len x every edit length 1..2s+1 x second file present/absent, " +
+		Rule: "(later rounds added: checksum-field boundary contents under displacement; zero tails of two bytes x every truncation point; same-size displacement for every a < b; aligned files with an insert in front of the last slice and bytes appended behind it; every 97th scenario as a disk twin) full product: slice size {4,8,12,16 (quick), +20,32,48 (thorough)} x file length {3s,3s+1,4s-1,5s+s/2} x {insert,delete} x every position 0..len x every edit length 1..2s+1 x second file present/absent, " +
 			"plus every ordered pair (content of f under g's name: swap, overwrite, rename); plus slice sizes {2000, 32768, 65536} (thorough also 4096, 16384, 32764, 32772) x 8 edit positions x 5 edit lengths. Recovery files are deleted so that exactly as many blocks remain as slices the edit touches. " +
 			"Oracle: Verify usable == slices found by brute-force scan == edit geometry; Repair must succeed with exactly that many blocks (a found slice that consumed a block would make it fail). non-trivial = edit destroys >=1 and leaves >=1 slice",
 		Assumptions: []string{"content is high-entropy and zero-free so the occurrence set is overlap-free (self-checked per case by the brute-force scan)"},
